@@ -47,6 +47,9 @@ func plans(id, tier string) (Plan, bool) {
 		for _, t := range ts[:pick(2, 4)] {
 			jobs = append(jobs, Job{Pkg: pkgV2, Harness: "c01_sequences", Params: "t=" + t, Shards: pick(2, 8)})
 		}
+		for _, t := range []string{"0.7", "0.8", "0.9"} {
+			jobs = append(jobs, Job{Pkg: pkgV2, Harness: "c01_composites", Params: "t=" + t, Shards: 2})
+		}
 		return Plan{Level: "exploration", Jobs: jobs}, true
 	case "C02":
 		return Plan{Level: "exploration", Jobs: []Job{
@@ -189,6 +192,7 @@ func plans(id, tier string) (Plan, bool) {
 		}
 		jobs = append(jobs, Job{Pkg: pkgSC, Harness: "c14_race", Race: true, MaxProcs: 16})
 		jobs = append(jobs, Job{Pkg: pkgExtV1, Harness: "c14_license_sched", Instr: "v1", Shards: pick(4, 16)})
+		jobs = append(jobs, Job{Pkg: pkgExtV1, Harness: "c14_license_sched", Instr: "v1", Params: "scenario=1;budget=" + fmt.Sprint(pick(1, 2)), Shards: pick(4, 16)})
 		jobs = append(jobs, Job{Pkg: pkgExtV1, Harness: "c14_license_race", Race: true, MaxProcs: 16})
 		return Plan{Level: "model_checking", Jobs: jobs}, true
 	case "C15":
